@@ -9,7 +9,10 @@ a text line; the compiled pattern is replaced by a stub whose named groups are s
 sub-patterns can spell (A-RE), and the real reader runs on a file with a placeholder timing line.  Proved for ALL digit values:
 begin and end of the paragraph are exactly the printed times as rationals (never a float), hour fields of two or three digits;
 and, through the real IMSC writer in frames syntax at 24/25/30/50/60 fps, a printed time that is a whole number of frames is written as
-exactly that frame count (the `lands on the intended frame` clause).
+exactly that frame count (the `lands on the intended frame` clause); and `reading the SRT writer's own output returns the cues
+that were written`: on document shapes with symbolic timing the text the real writer returns (times are format tokens) is read by
+the real reader in the same symbolic run (timing pattern wrapped by restub.TokenRegex): one paragraph per cue written, same begin
+and end as exact rationals, same text lines.
 Everything that involves the text of a cue (lines, tags, counters, blank-line runs, round trip) is string processing: bounded tier only
 (rtc/c10.py), where also every millisecond value 000..999, every hour value 00..999 in both spellings and every mm:ss value are enumerated."""
 import framework
@@ -55,7 +58,13 @@ def check(tier, seed, only=None, skip_a=False, skip_b=False):
       undecided.append(f"obligation={fn} reason=function-not-found:{e}")
   if not skip_a:
     from contracts import reader_times
+    from contracts.c12 import clock_harnesses
     hs = [reader_times.h_srt_times()] + [reader_times.h_srt_frames(fps) for fps in (24, 25, 30, 50, 60)]
+    hs += [h for h in clock_harnesses() if h.name.startswith("ClockTime.from_seconds")]      # discharge the callee contract used below
+    rt = [("twop", ("b1", "e1")), ("nested", ("s1b", "s3e")), ("styled", ("ab", "ae"))] + ([("twop", ("b1", "e1", "e2")), ("rubyparts", ("rtb", "rte"))] if tier != "quick" else [])
+    hs += [reader_times.h_writer_reader_roundtrip("srt", shape, mask) for shape, mask in rt]
+    for h in hs:
+      h.budget_s, h.max_paths = 300.0, 20000
     if only:
       hs = [h for h in hs if only in h.name]
     cov_a, f_a, u_a, e_a = framework.run_tier_a(PROP, hs)
